@@ -226,6 +226,15 @@ fn run_c18(ctx: &mut Ctx, rep: &mut Report) {
             targets.push(("delta".to_string(), format!("/json-delta?session={session}&serial={s}"), Some((*s, m.clone()))));
         }
         targets.push(("foreign".to_string(), format!("/json-delta?session={}&serial={}", session + 1, serial), None));
+        // Foreign sessions that agree with the current one in their low 16 or low 32 bits (the RTR session id is the
+        // low 16 bits of the session): still foreign, so still a reset - asked with the current and an earlier serial.
+        for off in [1u64 << 16, 1u64 << 32, 3u64 << 16] {
+            let foreign = session.wrapping_add(off);
+            targets.push(("foreign".to_string(), format!("/json-delta?session={foreign}&serial={serial}"), None));
+            if let Some((s, _)) = versions.iter().rev().nth(1) {
+                targets.push(("foreign".to_string(), format!("/json-delta?session={foreign}&serial={s}"), None));
+            }
+        }
         for (kind, target, from) in targets {
             rep.eval();
             let resp = match http_get(srv.http_addr, &target) {
